@@ -317,6 +317,35 @@ pub fn run(ctx: &mut Ctx) {
         }
         ctx.eval(&Hist { buf, ops });
     }
+    // fill levels around 2^16 on the largest capacities
+    for (i, &cap) in [65535usize, 65536, 70000].iter().enumerate() {
+        if !ctx.mine(i as u64 + 3) {
+            continue;
+        }
+        let chunk = |n: usize, salt: u8| -> Vec<u8> { (0..n).map(|j| (j as u8).wrapping_mul(3).wrapping_add(salt)).collect() };
+        let ops = vec![
+            BOp::Extend(chunk(40000, 1)),
+            BOp::Extend(chunk(25000, 2)),
+            BOp::Extend(chunk(534, 3)),
+            BOp::Push(0x11),
+            BOp::Push(0x12),
+            BOp::Push(0x13),
+            BOp::Extend(chunk(4000, 4)),
+            BOp::Extend(chunk(465, 5)),
+            BOp::Push(0x14),
+            BOp::Truncate(65537),
+            BOp::Truncate(65536),
+            BOp::Push(0x15),
+            BOp::Truncate(65535),
+            BOp::Push(0x16),
+            BOp::Push(0x17),
+            BOp::Clear,
+            BOp::Extend(chunk(cap, 6)),
+            BOp::Push(0x18),
+        ];
+        ctx.eval(&Hist { buf: BufKind::Arr(cap), ops });
+        ctx.bump("floor:fill-beyond-2^16");
+    }
     // stale-byte test: fill, truncate, compare (part of every history through the fresh-buffer comparison)
     for (i, &cap) in MENU.iter().enumerate() {
         if !ctx.mine(i as u64) || cap > 8192 {
@@ -336,6 +365,7 @@ pub const FLOORS: &[&str] = &[
     "floor:oom:extend:fill=N",
     "floor:oom:extend:fill=N-1",
     "floor:stale-byte-histories",
+    "floor:fill-beyond-2^16",
 ];
 
 pub const RULE: &str = "cases = (capacity, operation history): exhaustively all histories up to the stated length over {push(a), push(b), extend(empty), extend(a), extend(ab), extend(abcde), truncate(0), truncate(1), truncate(N), truncate(N+1), clear} for N in 0..=4; \
